@@ -20,5 +20,8 @@ fn main() {
             Ok(s) => writeln!(w, "{}", s).unwrap(),
             Err(msg) => writeln!(w, "panic {}", msg.replace('\n', " ")).unwrap(),
         }
+        // one answer per request is on the pipe before the next request is touched: if a request kills the process (stack overflow,
+        // abort, illegal instruction - not catchable), the driver of this harness can tell which one it was
+        w.flush().unwrap();
     }
 }
